@@ -51,7 +51,12 @@ def block_comment(rng, multiline):
 
 
 def line_comment(rng):
-    return rng.choice((b'--', b'--', b'//')) + comment_text(rng)
+    marker = rng.choice((b'--', b'--', b'//'))
+    text = comment_text(rng)
+    if marker == b'//' and rng.random() < 0.2:
+        # after `//` a long-bracket opener is plain comment text (it would open a block comment after `--`)
+        text = rng.choice((b'[[', b'[=[', b'[[ x ]]', b'[==[')) + text.lstrip(b' ')
+    return marker + text
 
 
 class Layout:
